@@ -607,9 +607,17 @@ impl GlobalInferenceCtx<'_> {
     // `get_const` determines whether or not `const_data` can be called
     fn get_const(&self, expr: Idx<Expr>) -> ExprIsConst {
         let mut to_check = vec![(self.loc, expr)];
+        // globals can refer to each other in a circle (that's reported as an error somewhere
+        // else). without this, such a circle made this loop run forever
+        let mut already_checked = FxHashSet::default();
 
         let mut idx = 0;
         while let Some((loc, expr)) = to_check.get(idx).copied() {
+            if !already_checked.insert((loc, expr)) {
+                idx += 1;
+                continue;
+            }
+
             let result = match &self.world_bodies[loc.file()][expr] {
                 Expr::Missing
                 | Expr::Lambda(_)
